@@ -10,8 +10,29 @@ export GOFLAGS=-mod=mod GOPROXY=off GOSUMDB=off GOTOOLCHAIN=local
 W=$(mktemp -d /tmp/seedconfirm.XXXXXX); rmdir "$W"
 git -C /repo worktree add --detach "$W" HEAD >/dev/null 2>&1 || { echo "cannot create worktree"; exit 2; }
 trap 'git -C /repo worktree remove --force "$W" >/dev/null 2>&1; rm -rf "$W"' EXIT
-cmds=$(awk '/^Expected/{exit} /^[[:space:]]*#/{next} /^[[:space:]]*$/{next} {print}' "$DEMO/RUN.txt" | sed -e "s#<this dir>#$DEMO#g" -e "s#<this-dir>#$DEMO#g" -e "s#<demo dir>#$DEMO#g" -e "s#<demo>#$DEMO#g" -e "s#<this directory>#$DEMO#g")
-script=$(echo "$cmds" | awk 'BEGIN{print "set -o pipefail; rc=0"} {print "{ " $0 " ; } || rc=1"} END{print "exit $rc"}')
+script=$(python3 - "$DEMO" <<'PY'
+import re, sys
+demo = sys.argv[1]
+out = ["set -o pipefail", "rc=0"]
+for line in open(demo + "/RUN.txt"):
+    if line.startswith("Expected"):
+        break
+    l = line.strip()
+    if l.startswith("$ "):
+        l = l[2:]
+    if not re.match(r"(export|cp|timeout|go|rm|mkdir|cd|bash|sh|chmod|\./|GOFLAGS=)", l):
+        continue
+    l = re.sub(r"\s+#.*$", "", l)
+    for ph in ("<this dir>", "<this-dir>", "<demo dir>", "<demo>", "<this directory>", "<DEMO>", "$DEMO", "<dir>"):
+        l = l.replace(ph, demo)
+    if l.startswith(("export", "cd ")):
+        out.append(l)
+    else:
+        out.append("{ " + l + "\n} || rc=1")
+out.append("exit $rc")
+print("\n".join(out))
+PY
+)
 rundemo() { (cd "$W" && bash -c "$script") > "$W/../$(basename $W).demo.log" 2>&1; local rc=$?; tail -5 "$W/../$(basename $W).demo.log" | sed 's/^/      /'; rm -f "$W/../$(basename $W).demo.log"; return $rc; }
 echo "== demo on unchanged checkout (expect pass)"
 if rundemo; then echo "   PASS (as expected)"; clean_ok=1; else echo "   FAIL (unexpected)"; clean_ok=0; fi
